@@ -56,7 +56,9 @@ func (in *vfC18Inst) LastDeviations() []string {
 	return vfDeviations(in.lastEv, in.lastPts, []string{"event"}, 0)
 }
 
-func vfC18New(x *vfExec, router string) *vfC18Inst {
+// variant "queueless": the node never gets an outbound stream to peer b (opening it fails every time), so b is a
+// topic member known through its own stream only, without an outbound queue.
+func vfC18New(x *vfExec, router, variant string) *vfC18Inst {
 	in := &vfC18Inst{x: x, w: newVfWorld(), fakes: map[string]*vfFake{}, conn: map[string]bool{}, router: router}
 	n, err := vfNewNode(in.w, "N", router, WithMessageSignaturePolicy(StrictNoSign))
 	if err != nil {
@@ -75,6 +77,9 @@ func vfC18New(x *vfExec, router string) *vfC18Inst {
 		panic(err)
 	}
 	in.topic = t
+	if variant == "queueless" {
+		in.w.setPolicy(n.id(), in.fakes["b"].ident.id, vfStreamFail)
+	}
 	for _, name := range []string{"a", "b"} {
 		in.connect(name)
 	}
@@ -375,37 +380,45 @@ func (in *vfC18Inst) Finish(judge bool) string {
 	return strings.Join(obs, " ") + " members=" + strings.Join(members, ",")
 }
 
-func vfC18Cfg(r *vfRun, router string) *vfExploreCfg {
+func vfC18Cfg(r *vfRun, router, variant string) *vfExploreCfg {
 	depth := 8
 	if r.thorough {
 		depth = 11
 	}
+	name := router
+	if variant != "" {
+		name += "-" + variant
+		depth-- // (the variants repeat the base exploration with one peer changed)
+	}
 	return &vfExploreCfg{
-		Scenario: map[string]any{"router": router},
-		Name:     router,
+		Scenario: map[string]any{"router": router, "variant": variant},
+		Name:     name,
 		MaxDepth: depth,
 		Bubble:   true,
-		New:      func(x *vfExec) vfInstance { return vfC18New(x, router) },
+		New:      func(x *vfExec) vfInstance { return vfC18New(x, router, variant) },
 	}
 }
 
 func init() {
 	vfRegister("C18", &vfCheck{
 		run: func(r *vfRun) {
-			for _, router := range []string{"flood", "gossip"} {
-				if _, ok := r.nextCase(); ok {
-					vfExplore(r, vfC18Cfg(r, router))
+			for _, variant := range []string{"", "queueless"} {
+				for _, router := range []string{"flood", "gossip"} {
+					if _, ok := r.nextCase(); ok {
+						vfExplore(r, vfC18Cfg(r, router, variant))
+					}
 				}
 			}
 		},
 		replay: func(r *vfRun, raw json.RawMessage) {
 			var c struct {
 				Scenario struct {
-					Router string `json:"router"`
+					Router  string `json:"router"`
+					Variant string `json:"variant"`
 				} `json:"scenario"`
 			}
 			json.Unmarshal(raw, &c)
-			vfReplayCase(r, vfC18Cfg(r, c.Scenario.Router), raw)
+			vfReplayCase(r, vfC18Cfg(r, c.Scenario.Router, c.Scenario.Variant), raw)
 		},
 	})
 }
